@@ -23,7 +23,7 @@ META = dict(
     id='C14',
     level='proof',
     technique='Coq proof (date reader/formatter model against the Gregorian calendar: round trips, soundness of acceptance, weekday, order) + differential correspondence of the extracted model against ledger, exhaustive over 1900..2199 in every accepted spelling',
-    level_text='Theorems in coq/Properties/Properties_C14.v state, for all dates of boost\'s range 1400..9999 and all strings, that the model of parse_date (reader list regenerated from times.cc, separator rewriting, glibc strptime for %Y %m %d %y, boost date construction, re-format-and-compare, year inference) accepts every accepted spelling of a valid date as exactly that day, accepts nothing that does not spell a valid date (month 13, day 32, 30 February, 29 February of a non-leap year, trailing characters are errors), that formatting a read date gives the same day, that weekday and order are those of the Gregorian calendar, and that day number <-> civil date conversions are inverse bijections. The model is tied to the code by reading every day 1900-01-01..2199-12-31 in six spellings, every impossible month/day for leap, non-leap and century years, MM/DD under year directives and --now, range ends, malformed strings, random --input-date-format/--date-format pairs, and reports that ask for several different date formats in one run (2-7 per run, with --dow / -M / --by-payee) both in freshly built ledger and in the extracted model; the translator re-reads from times.cc that the formatter cache is keyed by the exact format string.',
+    level_text='Theorems in coq/Properties/Properties_C14.v state, for all dates of boost\'s range 1400..9999 and all strings, that the model of parse_date (reader list regenerated from times.cc, separator rewriting, glibc strptime for %Y %m %d %y, boost date construction, re-format-and-compare, year inference) accepts every accepted spelling of a valid date as exactly that day, accepts nothing that does not spell a valid date (month 13, day 32, 30 February, 29 February of a non-leap year, trailing characters are errors), that formatting a read date gives the same day, that weekday and order are those of the Gregorian calendar, and that day number <-> civil date conversions are inverse bijections. The model is tied to the code by reading every day 1900-01-01..2199-12-31 in six spellings, every impossible month/day for leap, non-leap and century years, MM/DD under year directives and --now, range ends, malformed strings, random --input-date-format/--date-format pairs, and reports that ask for several different date formats in one run (2-7 per run, with --dow / -M / --by-payee) both in freshly built ledger and in the extracted model; the translator re-reads from times.cc that the formatter cache is keyed by the exact format string, and from textual.cc how a year directive and the end of an included file move the current date (year directives under several clocks, nested, closed, and across `include`d files are generated; the current date of every transaction comes from the model\'s epoch machine).',
     level_note='Trusted: Coq kernel; extraction + OCaml driver and the python harness for the correspondence; glibc strptime/strftime modelled for the numeric directives (%Y %m %d %e %y %j %u %w, names %a %A %b %B in the C locale) and validated differentially; boost::gregorian date construction, day numbers and month arithmetic transcribed in Base/Calendar.v and proved equal to the era-based calendar. A year-less MM/DD later in the year than today is taken from the previous year (same month and day; 29 February then has no counterpart and is an error).',
     design_ref='DESIGN.md section 7 C14, section 6.5',
     assumptions=['TZ=UTC, LC_ALL=C (weekday and month names)',
@@ -72,10 +72,10 @@ class DS:
 
 
 class Tx:
-    __slots__ = ('xd', 'xa', 'pd', 'pa', 'cur', 'pre')
+    __slots__ = ('xd', 'xa', 'pd', 'pa', 'cur', 'pre', 'file')
 
-    def __init__(self, xd, xa=None, pd=None, pa=None, cur=None, pre=()):
-        self.xd, self.xa, self.pd, self.pa, self.cur, self.pre = xd, xa, pd, pa, cur, pre
+    def __init__(self, xd, xa=None, pd=None, pa=None, cur=None, pre=(), file=None):
+        self.xd, self.xa, self.pd, self.pa, self.cur, self.pre, self.file = xd, xa, pd, pa, cur, pre, file
 
     def parts(self):
         """date strings in the order ledger parses them (textual.cc parse_xact: aux first;
@@ -108,30 +108,46 @@ def err_class(msg):
     return 'Other:' + msg[:60]
 
 
-def journal_text(txs, skip=()):
-    """-> (text, line->tx index table as list of (first, last, idx))"""
-    out = []
+def journal_files(txs, skip=(), tails=None, files=()):
+    """transactions in reading order, each in its file (t.file; None = the journal itself) ->
+    ({file: text}, [(file, first line, last line, idx)]).  `pre` lines (directives, `include NAME`)
+    are written before their transaction in the same file; `tails[file]` after its last one."""
+    out = {None: []}
+    line = {None: 1}
     spans = []
-    line = 1
+    for f in files:
+        out.setdefault(f, [])
+        line.setdefault(f, 1)
     for i, t in enumerate(txs):
+        f = t.file
+        o = out.setdefault(f, [])
+        line.setdefault(f, 1)
         for p in t.pre:
-            out.append(p)
-            line += 1
+            o.append(p)
+            line[f] += 1
         if i in skip:
             continue
         head = t.xd.s + ('=' + t.xa.s if t.xa is not None else '') + ' p%d' % i
         note = ''
         if t.pd is not None or t.pa is not None:
             note = '  ; [' + (t.pd.s if t.pd is not None else '') + ('=' + t.pa.s if t.pa is not None else '') + ']'
-        out.append(head)
-        out.append('    A  1' + note)
-        out.append('    B')
-        spans.append((line, line + 2, i))
-        line += 3
-    return '\n'.join(out) + '\n', spans
+        o.append(head)
+        o.append('    A  1' + note)
+        o.append('    B')
+        spans.append((f, line[f], line[f] + 2, i))
+        line[f] += 3
+    for f, tl in (tails or {}).items():
+        out.setdefault(f, []).extend(tl)
+    return {f: '\n'.join(o) + '\n' for f, o in out.items()}, spans
 
 
-def run_journal(ctx, name, txs, now, extra=(), outfmt=OUTF, date_format=None, more_args=(), fmt_override=None):
+def journal_text(txs, skip=()):
+    """single file: -> (text, [(first, last, idx)])"""
+    texts, spans = journal_files(txs, skip)
+    return texts[None], [(a, b, i) for _, a, b, i in spans]
+
+
+def run_journal(ctx, name, txs, now, extra=(), outfmt=OUTF, date_format=None, more_args=(), fmt_override=None, tails=None, files=()):
     """Two passes: the first finds the rejected transactions (stderr), the second prints the
     accepted ones (ledger prints no report when any transaction failed).
     -> dict idx -> ('err', class) | ('ok', [fields]) | ('lost',)"""
@@ -146,23 +162,36 @@ def run_journal(ctx, name, txs, now, extra=(), outfmt=OUTF, date_format=None, mo
     res = {}
     skip = set()
     for ps in range(3):
-        text, spans = journal_text(txs, skip)
-        path = ctx.path('%s.%d.dat' % (name, ps))
-        with open(path, 'w', encoding='latin-1') as f:
-            f.write(text)
+        texts, spans = journal_files(txs, skip, tails, files)
+        if len(texts) == 1:
+            path = ctx.path('%s.%d.dat' % (name, ps))
+            with open(path, 'w', encoding='latin-1') as f:
+                f.write(texts[None])
+            mainbase = os.path.basename(path)
+        else:
+            d = ctx.path('%s.%d.d' % (name, ps))
+            os.makedirs(d, exist_ok=True)
+            mainbase = 'main.dat'
+            for fn, text in texts.items():
+                with open(os.path.join(d, fn or mainbase), 'w', encoding='latin-1') as f:
+                    f.write(text)
+            path = os.path.join(d, mainbase)
         st, out, err = lib.run_ledger(['-f', path, 'reg', 'A'] + args + list(more_args) + ['--format', fmt], timeout=300)
         errtxt = err.decode('latin-1')
         newerr = 0
         if errtxt.strip():
-            starts = [s for s, _, _ in spans]
             import bisect
-            for m in re.finditer(r'While parsing file "[^"]*", line (\d+):[^\n]*\n(?:(?!While parsing file).*\n)*?Error: ([^\n]*)', errtxt):
-                ln = int(m.group(1))
-                k = bisect.bisect_right(starts, ln) - 1
-                if k >= 0 and spans[k][0] <= ln <= spans[k][1]:
-                    idx = spans[k][2]
+            byfile = {}
+            for fn, a, b, i in spans:
+                byfile.setdefault(fn or mainbase, []).append((a, b, i))
+            for m in re.finditer(r'While parsing file "([^"]*)", line (\d+):[^\n]*\n(?:(?!While parsing file).*\n)*?Error: ([^\n]*)', errtxt):
+                sp = byfile.get(os.path.basename(m.group(1)), [])
+                ln = int(m.group(2))
+                k = bisect.bisect_right([a for a, _, _ in sp], ln) - 1
+                if k >= 0 and sp[k][0] <= ln <= sp[k][1]:
+                    idx = sp[k][2]
                     if idx not in res:
-                        res[idx] = ('err', err_class(m.group(2)))
+                        res[idx] = ('err', err_class(m.group(3)))
                         skip.add(idx)
                         newerr += 1
             if newerr == 0:
@@ -303,8 +332,9 @@ def judge_tx(t, impl, field_of=None):
 
 # ------------------------------------------------------------------------------------------ groups
 class Group:
-    def __init__(self, name, txs, now=NOW, extra=(), outfmt=OUTF, date_format=None):
+    def __init__(self, name, txs, now=NOW, extra=(), outfmt=OUTF, date_format=None, tails=None, files=()):
         self.name, self.txs, self.now, self.extra, self.outfmt, self.date_format = name, txs, now, tuple(extra), outfmt, date_format
+        self.tails, self.files = tails or {}, tuple(files)
 
 
 def g_sweep(ctx, rng, y0, y1, step=1, offset=0):
@@ -545,6 +575,116 @@ def g_md_epoch(ctx, rng, nows, nblocks):
                 pending = []
                 txs.append(t)
         groups.append(Group('md-epoch-%d' % gi, txs, now=now))
+    return groups
+
+
+def g_md_include(ctx, rng, nows, nsteps, leaky):
+    """year directives and `include`: the including file has a directive in force (or none), includes
+    files that have no directive of their own, leave one open, close an `apply year`, include further
+    files; year-less dates before, inside and after each include.  Directive scope as the oracle sees
+    it is per file: what an included file sets ends with that file, what the includer set goes on.
+    leaky=True additionally lets an included file leave TWO year directives open (finding F106);
+    every year-less date read after that is of kind md-after-leaky-include."""
+    groups = []
+    for gi, now in enumerate(nows):
+        txs, tails, files = [], {}, []
+        state = dict(tainted=False, nfile=0)
+
+        def eff(stacks):
+            for st in reversed(stacks):
+                if st:
+                    return st[-1][0]
+            return None
+
+        def dates(stacks, fname, pending, n):
+            cy = eff(stacks)
+            yy = cy if cy is not None else now[0]
+            for _ in range(n):
+                m = rng.randrange(1, 13)
+                d = rng.choice([1, 15, dim(yy, m), 28, rng.randrange(1, 29), 29 if m == 2 else 30])
+                z = rng.random() < 0.6
+                kind = 'md-after-leaky-include' if state['tainted'] else ('md-directive' if cy is not None else 'md-now')
+                ds = DS(spell_md(m, d, rng.choice('///-.'), z or m >= 10, z or d >= 10),
+                        md_intent((cy, 12, 31), m, d, True) if cy is not None else md_intent(now, m, d, False), kind)
+                k = rng.random()
+                if k < 0.8:
+                    t = Tx(ds)
+                elif k < 0.9:
+                    t = Tx(DS(spell(yy, 1, 2), ('date', (yy, 1, 2)), 'ymd/zeros'), pd=ds)
+                else:
+                    t = Tx(ds, xa=DS(spell(yy, 3, 4, '-'), ('date', (yy, 3, 4)), 'ymd-zeros'))
+                t.file, t.pre, t.cur = fname, tuple(pending), now
+                del pending[:]
+                txs.append(t)
+
+        def directive(stacks, pending, yr=None):
+            yr = yr if yr is not None else rng.choice([now[0], now[0] - 1, now[0] + 1, 2019, 2020, rng.randrange(1401, 9999)])
+            is_apply = rng.random() < 0.5
+            pending.append(('apply year %d' if is_apply else rng.choice(['Y %d', 'year %d', 'Y%d'])) % yr)
+            stacks[-1].append((yr, is_apply))
+
+        def include(stacks, pending, depth):
+            state['nfile'] += 1
+            fname = 'inc%d.dat' % state['nfile']
+            files.append(fname)
+            pending.append('include ' + fname)
+            parent_pending = pending
+            sub = []          # lines waiting for the next transaction of the included file
+            stacks.append([])
+            shape = rng.choice(['plain', 'plain', 'one-open', 'closed', 'closed-then-dates', 'nested'] + (['two-open'] * 3 if leaky else []))
+            # the include line must be written before the included file's transactions are numbered:
+            # flush it onto a transaction of the includer only later; transactions are in reading order,
+            # so the included file's come first and carry their own `pre`
+            if rng.random() < 0.6:
+                dates(stacks, fname, sub, rng.randrange(1, 4))
+            if shape == 'one-open':
+                directive(stacks, sub)
+                dates(stacks, fname, sub, rng.randrange(1, 4))
+            elif shape.startswith('closed'):
+                sub.append('apply year %d' % rng.choice([now[0] - 2, 2018, rng.randrange(1401, 9999)]))
+                stacks[-1].append((int(sub[-1].split()[-1]), True))
+                dates(stacks, fname, sub, rng.randrange(1, 4))
+                stacks[-1].pop()
+                sub.append(rng.choice(['end apply year', 'end apply', 'end']))
+                if shape == 'closed-then-dates':
+                    dates(stacks, fname, sub, rng.randrange(1, 3))
+            elif shape == 'nested' and depth < 2:
+                if rng.random() < 0.5:
+                    directive(stacks, sub)
+                include(stacks, sub, depth + 1)
+                dates(stacks, fname, sub, rng.randrange(1, 3))
+            elif shape == 'two-open':
+                directive(stacks, sub)
+                if rng.random() < 0.5:
+                    dates(stacks, fname, sub, rng.randrange(1, 3))
+                directive(stacks, sub)
+                if rng.random() < 0.7:
+                    dates(stacks, fname, sub, rng.randrange(1, 3))
+            if sub:
+                tails.setdefault(fname, []).extend(sub)
+            own = stacks.pop()
+            if len(own) >= 2:
+                state['tainted'] = True
+            return parent_pending
+
+        stacks = [[]]
+        pending = []
+        for b in range(nsteps):
+            r = rng.random()
+            if b == 0 and gi % 3 != 2:
+                directive(stacks, pending, yr=rng.choice([2019, now[0] - 2, now[0] + 3]))
+            elif r < 0.2:
+                directive(stacks, pending)
+            elif r < 0.3 and stacks[-1] and stacks[-1][-1][1]:
+                stacks[-1].pop()
+                pending.append(rng.choice(['end apply year', 'end apply', 'end']))
+            elif r < 0.65:
+                include(stacks, pending, 1)
+                # pending lines written so far belong BEFORE the included file's transactions in reading
+                # order only if they are attached to a main-file transaction that follows; the include
+                # line itself must precede: handled by journal_files through the order of `pre`
+            dates(stacks, None, pending, rng.randrange(2, 6))
+        groups.append(Group('md-include%s-%d' % ('-leaky' if leaky else '', gi), txs, now=now, tails=tails, files=files))
     return groups
 
 
@@ -886,6 +1026,17 @@ def judge_multi(case, st, out, err):
 CANON_RE = re.compile(r'\d{4}/\d\d/\d\d$')
 
 
+def replay_case(g, i, single, **kw):
+    """the replayable input of transaction i: for a group with included files every file with all its
+    directive lines and only this transaction"""
+    d = single
+    if g.files:
+        texts, _ = journal_files(g.txs, set(range(len(g.txs))) - {i}, g.tails, g.files)
+        d = dict(journal=texts[None], files={f: t for f, t in texts.items() if f is not None})
+    d.update(kw)
+    return d
+
+
 def last_pre(txs, i):
     """the directive lines read before transaction i (its own included)"""
     return tuple(p for j in range(i + 1) for p in txs[j].pre)
@@ -917,7 +1068,7 @@ def process_group(ctx, res, g, impl, mres, date_format_mode=False):
         if g.outfmt == OUTF:
             for key, desc, obs, req in judge_tx(t, ri):
                 res.violations.append(dict(key=key, desc=desc,
-                                           case=dict(journal=journal_text([Tx(t.xd, t.xa, t.pd, t.pa, t.cur, last_pre(g.txs, i))])[0],
+                                           case=replay_case(g, i, dict(journal=journal_text([Tx(t.xd, t.xa, t.pd, t.pa, t.cur, last_pre(g.txs, i))])[0]),
                                                      now='%d/%d/%d' % g.now, extra=list(g.extra)),
                                            observed=obs, required=req))
         elif ri[0] == 'ok' and t.xd.intent and t.xd.intent[0] == 'reject':
@@ -934,26 +1085,43 @@ DIRECTIVE_RE = re.compile(r'(?:Y|year|apply year)\s*(\d+)$')
 
 
 def assign_epochs(g):
-    """the current date at every transaction of a group that contains year directives, from the
-    model's epoch machine (Model/Dates.v run_events); replaces what the generator assumed"""
-    if not any(t.pre for t in g.txs):
+    """the current date at every transaction of a group that contains year directives or includes,
+    from the model's epoch machine (Model/Dates.v run_events); replaces what the generator assumed"""
+    if not any(t.pre for t in g.txs) and not g.tails:
         return
-    evs = []
-    for t in g.txs:
-        for p in t.pre:
-            m = DIRECTIVE_RE.match(p)
+    items = {}
+    for i, t in enumerate(g.txs):
+        L = items.setdefault(t.file, [])
+        L.extend(('line', p) for p in t.pre)
+        L.append(('tx', i))
+    for f, tl in g.tails.items():
+        items.setdefault(f, []).extend(('line', p) for p in tl)
+    evs, order = [], []
+
+    def walk(f):
+        for kind, v in items.get(f, []):
+            if kind == 'tx':
+                evs.append('q')
+                order.append(v)
+                continue
+            m = DIRECTIVE_RE.match(v)
             if m:
                 evs.append('(y %s)' % m.group(1))
-            elif p.startswith('end'):
+            elif v.startswith('end'):
                 evs.append('end')
+            elif v.startswith('include '):
+                evs.append('fb')
+                walk(v[8:].strip())
+                evs.append('fe')
             else:
-                raise ValueError('unknown directive line %r' % p)
-        evs.append('q')
+                raise ValueError('unknown directive line %r' % v)
+    walk(None)
     out = lib.run_model('C14', ['(e x %d %d %d (%s))' % (g.now[0], g.now[1], g.now[2], ' '.join(evs))])
-    curs = [tuple(int(x) for x in c.split(',')) for c in out[0].split(' ', 1)[1].split(';')]
-    assert len(curs) == len(g.txs)
-    for t, c in zip(g.txs, curs):
-        t.cur = c
+    body = out[0].split(' ', 1)[1] if ' ' in out[0] else ''
+    curs = [tuple(int(x) for x in c.split(',')) for c in body.split(';')] if body else []
+    assert len(curs) == len(g.txs) == len(order), (len(curs), len(g.txs), len(order))
+    for i, c in zip(order, curs):
+        g.txs[i].cur = c
 
 
 def run_groups(ctx, res, groups):
@@ -962,7 +1130,7 @@ def run_groups(ctx, res, groups):
         assign_epochs(g)
 
     def impl_of(g):
-        return run_journal(ctx, g.name, g.txs, g.now, g.extra, g.outfmt, g.date_format)
+        return run_journal(ctx, g.name, g.txs, g.now, g.extra, g.outfmt, g.date_format, tails=g.tails, files=g.files)
 
     def model_of(g):
         lines, keys = model_lines(g.txs, g.now, g.extra, g.outfmt)
@@ -1069,6 +1237,9 @@ def run(ctx, small=False):
     groups += g_md_epoch(ctx, rng, [NOW, (2021, 1, 15), (2020, 1, 15), (2021, 12, 31), (2024, 2, 29), (2000, 3, 1)]
                          + [(lambda y, m: (y, m, rng.randrange(1, dim(y, m) + 1)))(rng.randrange(1402, 9998), rng.randrange(1, 13)) for _ in range(ctx.scale(4, 40))],
                          ctx.scale(14, 30))
+    inc_nows = [NOW, (2021, 1, 15), (2020, 1, 15), (2024, 2, 29)] + [(lambda y, m: (y, m, rng.randrange(1, dim(y, m) + 1)))(rng.randrange(1403, 9997), rng.randrange(1, 13)) for _ in range(ctx.scale(12, 60))]
+    groups += g_md_include(ctx, rng, inc_nows, ctx.scale(10, 16), False)
+    groups += g_md_include(ctx, rng, inc_nows[:ctx.scale(5, 16)], ctx.scale(8, 12), True)
     groups += g_custom(ctx, rng, ctx.scale(150, 1500), 30)
     run_groups(ctx, res, groups)
     g_order(ctx, rng, res, ctx.scale(2000, 20000))
@@ -1100,6 +1271,8 @@ def replay(ctx, obj):
     if 'journal' in case:
         path = ctx.path('replay.dat')
         open(path, 'w', encoding='latin-1').write(case['journal'])
+        for fn, text in (case.get('files') or {}).items():
+            open(ctx.path(os.path.basename(fn)), 'w', encoding='latin-1').write(text)
         args = ['-f', path, 'reg', 'A', '--now', case.get('now', '2021/6/15')]
         for e in case.get('extra', []):
             args += ['--input-date-format', e]
